@@ -33,5 +33,65 @@ pub fn run(thorough: bool) -> Vec<Part> {
             part.violations.push(v.clone());
         }
     }
+    // Independent cross-check without any state de-duplication (protects against state that
+    // the digest does not see): every action sequence up to depth N over the boundary menu.
+    {
+        use crate::explore::System;
+        let cfg = WCfg { label: "stateless: every sequence, no de-duplication".into(), bodies: vec![5, 40], max_enqueues: 3, all_lengths: false };
+        let depth = if thorough { 8 } else { 7 };
+        let root = cfg.run(&[]);
+        let mut prefixes: Vec<Vec<crate::connw::WAct>> = vec![];
+        for a in &root.enabled {
+            let o = cfg.run(&[*a]);
+            for b in &o.enabled {
+                prefixes.push(vec![*a, *b]);
+            }
+        }
+        let cfg2 = cfg.clone();
+        let t = crate::par::par_enum(
+            prefixes.len() as u64,
+            workers(),
+            300,
+            move |i, t| {
+                fn dfs(cfg: &WCfg, path: &mut Vec<crate::connw::WAct>, depth: usize, t: &mut crate::par::Tally) {
+                    use crate::explore::System;
+                    let o = cfg.run(path);
+                    t.evals += 1;
+                    if o.nontrivial {
+                        t.nontrivial += 1;
+                    }
+                    t.outcome(o.obs % 4096);
+                    if let Some(v) = o.violation {
+                        t.violate(&v.signature, v.detail, v.replay);
+                        return;
+                    }
+                    if path.len() >= depth {
+                        return;
+                    }
+                    for a in o.enabled {
+                        path.push(a);
+                        dfs(cfg, path, depth, t);
+                        path.pop();
+                    }
+                }
+                let mut p = prefixes[i as usize].clone();
+                dfs(&cfg2, &mut p, depth, t);
+                if i == 3 {
+                    t.sample(serde_json::json!({"prefix": format!("{:?}", prefixes[i as usize]), "depth": depth}));
+                }
+            },
+            |i| format!("stateless prefix #{}", i),
+        );
+        part.add("stateless_sequences", t.evals);
+        part.set("stateless_depth", serde_json::json!(depth));
+        part.add("transitions", t.evals);
+        part.add("traces_validated_against_impl", t.evals);
+        for v in &t.violations {
+            part.violations.push(v.clone());
+        }
+        for e in &t.machinery_errors {
+            part.machinery_errors.push(e.clone());
+        }
+    }
     vec![part]
 }
